@@ -134,6 +134,7 @@ pub struct EFn {
     pub kind: FnKind,
     pub index: usize,
     pub tokens: String,
+    pub docs: Vec<String>,
 }
 
 #[derive(Debug, Clone)]
@@ -628,6 +629,7 @@ fn parse_free_fn(f: &syn::ItemFn, index: usize) -> EFn {
         kind,
         index,
         tokens: toks(f),
+        docs: docs_of(&f.attrs),
     }
 }
 
